@@ -13,7 +13,9 @@ fn handle_count(ctx: &Context) -> usize {
     }
 }
 
-const DEEP_CALLS: [&str; 30] = [
+const DEEP_CALLS: [&str; 32] = [
+    // (an invalid mode makes chmod itself report an error in the middle of the body)
+    "glob_chmod abc @D@/*.txt", "chmod_glob abc @D@/*.nomatch",
     "map_contains_value ${hk} nosuch", "map_contains_value ${hk} v", "map_contains_value ${map} nosuch", "map_contains_key ${hk} ${arr}", "map_contains_key ${hk} zz",
     "map_is_empty ${hk}", "set_from_array ${nested}", "array_concat ${nested} ${arr}", "array_join ${nested} ,", "array_join ${arr} \"\\t\"", "array_contains ${nested} ${arr}",
     "array_contains ${nested} zz", "array_is_empty ${nested}", "set_is_empty ${hset}", "concat ${arr} x", "join_path ${arr} b",
@@ -57,7 +59,7 @@ fn handle_table(ctx: &Context) -> BTreeMap<String, Value> {
 /// the deep scenario restricted to the script-implemented collection commands (used for C12)
 pub fn gen_deep_collections(r: &mut Rng) -> Value {
     let n = 1 + r.below(4);
-    let seq: Vec<String> = (0..n).map(|_| DEEP_CALLS[r.below(14)].to_string()).collect();
+    let seq: Vec<String> = (0..n).map(|_| DEEP_CALLS[2 + r.below(14)].to_string()).collect();
     json!({"deep": true, "calls": seq, "with_out": r.chance(3, 4)})
 }
 
@@ -107,7 +109,8 @@ pub fn class_of(input: &Value) -> &'static str {
     let calls: Vec<String> = input["calls"].as_array().map(|a| a.iter().map(|c| c.as_str().unwrap_or("").to_string()).collect()).unwrap_or_default();
     let n = calls.iter().filter(|c| c.starts_with("array_concat nohandle")).count();
     let eq = calls.iter().any(|c| c.split(' ').skip(1).any(|a| a.starts_with('=') || a.starts_with("\"=")));
-    if eq { "script-command-argument-starting-with-equals-sign" } else if n >= 2 { "script-command-for-loop-left-by-error-then-called-again" } else { "other" }
+    let gc = calls.iter().any(|c| (c.starts_with("glob_chmod abc") || c.starts_with("chmod_glob abc")) && c.ends_with("*.txt"));
+    if gc { "glob-chmod-leaks-its-file-list-when-chmod-reports-an-error" } else if eq { "script-command-argument-starting-with-equals-sign" } else if n >= 2 { "script-command-for-loop-left-by-error-then-called-again" } else { "other" }
 }
 
 pub fn run(input: &Value) -> Option<Value> {
